@@ -60,8 +60,6 @@ class IdealReservoir:
         time : ndarray
             times to solve for pressure
         """
-        self.time = time
-        self.__dict__.pop("recovery", None)  # forget results of an earlier run
         x = np.linspace(0, 1, self.nx)
         dx_squared = (x[1] - x[0]) ** 2
         pseudopressure = np.empty((len(time), self.nx))
@@ -78,7 +76,10 @@ class IdealReservoir:
             if info != 0:
                 # BiCGSTAB stalled or broke down: solve the tridiagonal system directly
                 pseudopressure[i + 1] = sparse.linalg.spsolve(a_matrix.tocsc(), b)
+        # store the run only once it is complete: a call that raised leaves the object as it was
+        self.time = time
         self.pseudopressure = pseudopressure
+        self.__dict__.pop("recovery", None)  # forget results of an earlier run
 
     def recovery_factor(self, time: ndarray | None = None, density=False) -> ndarray:
         """Calculate recovery factor over time.
@@ -187,8 +188,6 @@ class SinglePhaseReservoir(IdealReservoir):
         ------
         ValueError: wrong length changing pressure at frac-face
         """
-        self.time = time
-        self.__dict__.pop("recovery", None)  # forget results of an earlier run
         dx_squared = (1 / self.nx) ** 2
         pseudopressure = np.empty((len(time), self.nx))
         if pressure_fracface is None:
@@ -225,7 +224,11 @@ class SinglePhaseReservoir(IdealReservoir):
             if info != 0:
                 # BiCGSTAB stalled or broke down: solve the tridiagonal system directly
                 pseudopressure[i + 1] = sparse.linalg.spsolve(a_matrix.tocsc(), b)
+        # store the run only once it is complete: a call that raised (rejected schedule,
+        # pressure outside the table) leaves the object as it was
+        self.time = time
         self.pseudopressure = pseudopressure
+        self.__dict__.pop("recovery", None)  # forget results of an earlier run
 
 
 @dataclass
